@@ -151,9 +151,9 @@ func expectations(op txm.Op) []expect {
 	switch op.Kind {
 	case "Create", "CreateSlice", "CreatePtrSlice", "CreateInBatches", "SaveNew":
 		parentHooks = []string{"BeforeSave", "BeforeCreate", "AfterCreate", "AfterSave"}
-	case "SaveExisting", "FullSave", "Update", "UpdatesStruct", "UpdatesAssoc":
+	case "SaveExisting", "FullSave", "Update", "UpdatesStruct", "UpdatesAssoc", "UpdatesReturning":
 		parentHooks = []string{"BeforeSave", "BeforeUpdate", "AfterUpdate", "AfterSave"}
-	case "Delete", "DeleteSelect", "DeleteSelectAll":
+	case "Delete", "DeleteSelect", "DeleteSelectAll", "DeleteReturning", "DeleteSelectReturning":
 		parentHooks = []string{"BeforeDelete", "AfterDelete"}
 	case "UpdateColumn":
 		parentHooks = nil
@@ -162,7 +162,7 @@ func expectations(op txm.Op) []expect {
 		if parentHooks != nil {
 			out = append(out, expect{ptr: fmt.Sprintf("%p", u), typ: "User", hooks: parentHooks, name: u.Name})
 		}
-		if strings.HasPrefix(op.Kind, "Delete") || op.Kind == "Update" || op.Kind == "UpdatesStruct" || op.Kind == "UpdateColumn" {
+		if strings.HasPrefix(op.Kind, "Delete") || op.Kind == "Update" || op.Kind == "UpdatesStruct" || op.Kind == "UpdatesReturning" || op.Kind == "UpdateColumn" {
 			continue
 		}
 		for i := range u.Orders {
@@ -489,7 +489,19 @@ func runRead(c *core.Ctx, kind string) {
 
 func run(c *core.Ctx) {
 	if c.Case%5 == 4 {
-		runRead(c, readKinds[(c.Case/5)%len(readKinds)])
+		j := c.Case / 5
+		switch {
+		case j%3 == 0 && (j/3)%4 == 3:
+			runSharedGraph(c)
+		case j%3 == 0:
+			runRead(c, readKinds[(j/3)%len(readKinds)])
+		default:
+			// three of the 288 (type, operation, shape) combinations per case: the quick tier covers all of them
+			idx := (j/3)*2 + j%3 - 1
+			for d := 0; d < 3; d++ {
+				runValueRecv(c, (idx*3+d)%(len(vTypes)*len(vOps)*len(vShapes)))
+			}
+		}
 		return
 	}
 	kind := txm.OpKinds[(c.Case-c.Case/5)%len(txm.OpKinds)]
